@@ -34,6 +34,7 @@ EXAMPLES = {
     ':p[0-9]+': [':p1', ':p22'], ':q[ab]': [':qa', ':qb'],
     ':(u|w)-of': [':u-of', ':w-of'], ':prep-(out|in-place)-of': [':prep-out-of', ':prep-in-place-of'],
     ':prep-[a-z]+(-to)?': [':prep-on', ':prep-in-to'], ':w(-of)?': [':w', ':w-of'],
+    ':(mod|mode|model)': [':mod', ':mode', ':model'], ':q[0-9]': [':q1', ':q7'],
 }
 
 
@@ -188,7 +189,10 @@ def _get(name):
     elif name == 'prefix':
         # pattern roles that match a proper prefix of a literal role (which itself ends in -of)
         spec = {'roles': {':op[0-9]+': {}, ':op1-x-of': {}, ':prep-[a-z]+(-to)?': {}, ':prep-on-top-of': {},
-                          ':r0': {}, ':r0-z': {}, ':r': {}},
+                          ':r0': {}, ':r0-z': {}, ':r': {},
+                          # a longer pattern that matches a proper prefix of what a shorter key matches in full,
+                          # and a key whose own alternatives are prefixes of each other
+                          ':ARG[0-9]': {}, ':ARG10': {}, ':(mod|mode|model)': {}, ':q[0-9]': {}, ':q1x': {}},
                 'normalizations': {':r0-of': ':r'}, 'reifications': []}
         m, rm = from_spec(spec, name)
         e = (name, m, rm, spec)
